@@ -147,7 +147,7 @@ class World:
         "reject-then-check", "accept-mutation", "slice-assign", "list-assign", "neg-index", "sym-assign",
         "bind-total", "bind-partial", "bind-reject", "bind-self-alias", "dicke", "dicke-invalid", "flip-cold", "flip-warm",
         "save-load-ok", "ctor-reject", "ctor-accept-sym", "grey-band", "torn-file-load", "type-invalid",
-        "mask-assign", "drift-step", "value-kind-mismatch", "shared-storage-pair",
+        "mask-assign", "drift-step", "value-kind-mismatch", "shared-storage-pair", "flipped-joins-pool",
     ]
 
     # ------------------------------------------------------------ generation
@@ -882,6 +882,11 @@ class World:
                 else:
                     okk = complex(got[j]) == complex(want)
                 ctx.check(okk, "refine", f"flip-{a['times']}", f"flip x{a['times']}: result[{j}] = {got[j]!r}, expected source[{src_i}] = {want!r}")
+        if isinstance(res, wfmod.Wavefunction) and res is not obj and (m.free() or not m.symbolic) and len(st["pool"]) < 12:
+            # the flipped wavefunction is a wavefunction like any other: later steps bind it, assign to it, read it
+            perm = [m.entries[j if a["times"] == 2 else bitrev(j, n)] for j in range(dim)]
+            st["pool"].append({"obj": res, "m": M(perm, m.symbolic), "approx": ent.get("approx")})
+            ctx.probe("flipped-joins-pool")
         ctx.log("flip", "ok", times=a["times"], fn=a["fn"])
 
     def _do_save(self, ctx, st, step, a):
